@@ -73,7 +73,9 @@ def exec_for(ex, s, env):
     ordinal = ex.loop_ordinals[id(s)]
     it = ex.eval(s.iter, env)
     spec = ex.con.loops.get(ordinal) if ex.qual == ex.con.qual else None
-    if isinstance(it, VConst) and isinstance(it.py, range) and len(it.py) <= UNROLL_MAX and spec is None:
+    if isinstance(it, VTuple) and not it.items:
+        return
+    if isinstance(it, VConst) and isinstance(it.py, (range, tuple)) and len(it.py) <= UNROLL_MAX and spec is None:
         for x in it.py:
             ex.assign(s.target, VConst(x), env)
             ex.exec_block(s.body, env)
@@ -131,10 +133,11 @@ def exec_spec_loop(ex, s, env, seq, spec, ordinal):
     def inv_terms(k):
         c = Ctx(ex.pre, ex.st, ex.argvals, ex.self_ref, con.cls)
         L = LoopView(ex, seq, k, n, entry, env, entry_env)
-        return [(nm, tobool(t)) for nm, t in spec.inv(c, L)]
+        return [(it[0], tobool(it[1]), (list(it[2]) if len(it) > 2 and it[2] is not None else None))
+                for it in spec.inv(c, L)]
 
-    for nm, t in inv_terms(IntVal(0)):
-        ex.oblige("loop%d.init.%s" % (ordinal, nm), t, spec.tags or con.tags, s.lineno, "loop")
+    for nm, t, uses in inv_terms(IntVal(0)):
+        ex.oblige("loop%d.init.%s" % (ordinal, nm), t, spec.tags or con.tags, s.lineno, "loop", uses=uses)
     choice = ex.p.decide(2, "loop%d" % ordinal)
     # havoc what the body may modify
     for comp in spec.modifies:
@@ -149,7 +152,7 @@ def exec_spec_loop(ex, s, env, seq, spec, ordinal):
     if choice == 0:
         k = fresh("k", INT)
         ex.assume(And(0 <= k, k < n))
-        for nm, t in inv_terms(k):
+        for nm, t, uses in inv_terms(k):
             ex.assume(t)
         # if the facts force k = 0 (at-most-one-iteration loops), continue with the literal 0
         if implied(ex, k == 0):
@@ -157,8 +160,8 @@ def exec_spec_loop(ex, s, env, seq, spec, ordinal):
         head = ex.st.copy()
         ex.assign(s.target, seq.at(k), env)
         ex.exec_block(s.body, env)
-        for nm, t in inv_terms(k + 1):
-            ex.oblige("loop%d.preserve.%s" % (ordinal, nm), t, spec.tags or con.tags, s.lineno, "loop")
+        for nm, t, uses in inv_terms(k + 1):
+            ex.oblige("loop%d.preserve.%s" % (ordinal, nm), t, spec.tags or con.tags, s.lineno, "loop", uses=uses)
         for name in ex.st.components():
             if name in spec.modifies:
                 continue
@@ -168,7 +171,7 @@ def exec_spec_loop(ex, s, env, seq, spec, ordinal):
                 continue
             ex.oblige("loop%d.frame.%s" % (ordinal, name), comp_eq(name, a, b), con.tags, s.lineno, "frame")
         raise LoopEnd()
-    for nm, t in inv_terms(n):
+    for nm, t, uses in inv_terms(n):
         ex.assume(t)
     return
 
